@@ -23,7 +23,7 @@ import gens
 
 RULE = ("(1) real gen_wilson runs on shapes 1x1..7x7 (oblong, 1xk) under the tap, non-trivial = at least one walk with a loop erasure "
         "or >= 4 draws; distinct = distinct draw sequence; (2) best-first enumeration of scripted draw sequences of the real "
-        "function on 2x2, 2x3, 3x2 (and 1x3, 3x1, 2x1): distinct = distinct script; (4) seeds derived from VERIF_SEED")
+        "function on 2x2, 2x3, 3x2 (and 1x3, 3x1, 2x1): distinct = distinct script; (4) seeds derived from VERIF_SEED; later additions: scripted walks of 70*(rows*cols)^2 steps, caller-edited get_neighbors_in_bounds results, one shape array changed in place over a sweep of tabled grids (a sweep that does not return within 200000 random draws is a failing input), 2x5 / 5x2 in the thorough tier")
 ASSUMPTIONS = ["numpy's global RNG delivers independent draws, uniform on the requested range (the RNG's own law is assumed; the check "
                "verifies that the code requests exactly the ranges the model's `arity` says, with no weights)",
                "uniformity is proved for the 2x2, 2x3, 3x2, 3x3, 2x4, 4x2, 2x5, 5x2 grids (up to 1e-9, for every number of draws from n0 on); larger grids are "
